@@ -90,6 +90,9 @@ def run(rep, tier, seed, model_ok=True, effort=1):
               ("MAJOR.MINOR[.PATCH]", ["--minor"], "1.1", "global", ["1.2.0", "1.1"], ["1.1"], False),
               ("MAJOR.MINOR[.PATCH]", ["--minor"], "1.1", "default", ["1.3.0", "1.1"], ["1.3.0", "1.1"], False),
               ("MAJOR.MINOR.PATCH[PYTAG[NUM]]", ["--patch"], "1.2.2", "global", ["1.2.3rc", "1.2.2"], ["1.2.2"], False),
+              # tags made on the last day of a (leap) year with a day-of-year part
+              ("vYYYY.JJJ.INC0", [], "v2024.364.0", "global", ["v2024.364.0", "v2024.366.0", "1.2.3"], ["v2024.364.0"], False),
+              ("vYYYY.00J.INC0", [], "v2023.001.0", "default", ["v2023.365.0", "v2023.001.0"], ["v2023.365.0", "v2023.001.0"], False),
               ("MAJOR.MINOR.PATCH", ["--patch"], "1.2.3", "branch", ["1.2.4", "1.2.3"], ["1.2.3"], False),
               ("MAJOR.MINOR.PATCH", ["--patch"], "1.2.3", "global", ["2.0.0", "1.2.3"], ["1.2.3"], False),
               ("vMAJOR.MINOR.PATCH[-TAG]", ["--patch"], "v1.0.0-rc", "default", ["v1.0.0-beta", "v1.0.0", "v1.0.0-dev"], [], False),
